@@ -30,13 +30,13 @@ Proof. destruct t; cbn; intro H; try discriminate; [right; split; reflexivity | 
 Lemma int_float_ty_excl (t : rtype) : is_integer t && is_float_ty t = false.
 Proof. destruct t; reflexivity. Qed.
 
-(* with an uncertain / dynamic operand, no arithmetic or comparison operator gets an
-   unchecked opcode ... *)
-Lemma select_guarded_nonbitwise (op : binop) (l r : rtype) :
-  is_bitwise op = false -> is_certain l && is_certain r = false ->
+(* with an uncertain / dynamic operand no operator gets an unchecked opcode (since fix da40ed1
+   this includes the five shift / bitwise operators) *)
+Lemma select_guarded_all (op : binop) (l r : rtype) :
+  is_certain l && is_certain r = false ->
   is_unchecked_opcode (select_opcode op l r) = false.
 Proof.
-  intros Hb Hc. rewrite select_flags.
+  intros Hc. rewrite select_flags.
   assert (G : needs_guard l || needs_guard r = true \/
               (is_integer (unwrap_uncertain l) = false /\ is_float_ty (unwrap_uncertain l) = false) \/
               (is_integer (unwrap_uncertain r) = false /\ is_float_ty (unwrap_uncertain r) = false)).
@@ -48,12 +48,13 @@ Proof.
     destruct op; try discriminate; reflexivity.
 Qed.
 
-(* ... but the five shift / bitwise operators get ShlII..XorII exactly when both operand
-   types unwrap to integers, guard needed or not *)
+(* the shift / bitwise operators get ShlII..XorII exactly when both operand types are integers
+   and no guard is needed *)
 Lemma select_bitwise_exact (op : binop) (l r : rtype) :
   is_bitwise op = true ->
   is_unchecked_opcode (select_opcode op l r) =
-  is_integer (unwrap_uncertain l) && is_integer (unwrap_uncertain r).
+  is_integer (unwrap_uncertain l) && is_integer (unwrap_uncertain r)
+  && negb (needs_guard l || needs_guard r).
 Proof.
   intros Hb. rewrite select_flags.
   pose proof (int_float_ty_excl (unwrap_uncertain l)) as El.
@@ -64,14 +65,16 @@ Proof.
     try discriminate; destruct op; try discriminate; reflexivity.
 Qed.
 
-Lemma select_unguarded_witness :
-  is_certain (RUncertain RI64) && is_certain (RUncertain RI64) = false /\
-  select_opcode OpShl (RUncertain RI64) (RUncertain RI64) = O_ShlII /\
-  is_unchecked_opcode (select_opcode OpShl (RUncertain RI64) (RUncertain RI64)) = true /\
-  is_unchecked_opcode (select_opcode OpShr (RUncertain RI64) RI64) = true /\
-  is_unchecked_opcode (select_opcode OpBitAnd RI8 (RUncertain RU64)) = true /\
-  is_unchecked_opcode (select_opcode OpBitOr (RUncertain RI64) (RUncertain RI64)) = true /\
-  is_unchecked_opcode (select_opcode OpBitXor (RUncertain RI64) (RUncertain RI64)) = true.
+(* the selection before fix da40ed1, kept as a statement about the OLD definition only *)
+Definition select_guarded_int_opcode_old (op : binop) : opcode :=
+  match op with
+  | OpShl => O_ShlII | OpShr => O_ShrII | OpBitAnd => O_AndII | OpBitOr => O_OrII | OpBitXor => O_XorII
+  | o => select_guarded_int_opcode o
+  end.
+Lemma old_guarded_int_selection_was_unchecked :
+  is_unchecked_opcode (select_guarded_int_opcode_old OpShl) = true /\
+  is_unchecked_opcode (select_guarded_int_opcode OpShl) = false /\
+  select_opcode OpShl (RUncertain RI64) (RUncertain RI64) = O_Shl.
 Proof. vm_compute. repeat split; reflexivity. Qed.
 
 (* a typed (unchecked) opcode is only ever selected for int/int or float/float static types *)
@@ -145,24 +148,15 @@ Proof.
   try (apply typed_arith_ff_agrees; assumption);
   try (apply typed_ord_ff_agrees; [reflexivity | assumption..]);
   try (apply guarded_arith_iig_total; assumption);
-  try (apply guarded_ord_iig_sound; [reflexivity | assumption | assumption | unfold is_num; rewrite ?Ta, ?Tb, ?orb_true_r; reflexivity..]);
+  try (apply guarded_ord_iig_total; [reflexivity | assumption | assumption]);
   try (apply guarded_arith_ffg_sound; [assumption | assumption |
         rewrite ?(float_not_int a Ha Ta), ?(float_not_int b Hb Tb), ?andb_false_r; reflexivity]);
   try (apply guarded_ord_ffg_sound; [reflexivity | assumption | assumption |
-        unfold is_num; rewrite ?Ta, ?Tb, ?orb_true_r; reflexivity |
-        unfold is_num; rewrite ?Ta, ?Tb, ?orb_true_r; reflexivity |
         rewrite ?(float_not_int a Ha Ta), ?(float_not_int b Hb Tb), ?andb_false_r; reflexivity]).
-Qed.
-
-Lemma select_uncertain_refuted : exists op l r,
-  is_certain l && is_certain r = false /\ is_unchecked_opcode (select_opcode op l r) = true.
-Proof.
-  exists OpShl, (RUncertain RI64), (RUncertain RI64).
-  destruct select_unguarded_witness as (H1 & _ & H3 & _). exact (conj H1 H3).
 Qed.
 
 Lemma nonvacuous_select :
   word_has_type RI64 (v_int 7) = true /\ word_has_type RI64 W_2_5 = false /\
   select_opcode OpAdd RI64 RF64 = O_AddFFG /\ select_opcode OpAdd RI64 RDynamic = O_Add /\
-  select_opcode OpShl (RUncertain RI64) RI64 = O_ShlII /\ select_opcode OpAdd (RUncertain RI64) RI64 = O_AddIIG.
+  select_opcode OpShl (RUncertain RI64) RI64 = O_Shl /\ select_opcode OpAdd (RUncertain RI64) RI64 = O_AddIIG.
 Proof. vm_compute. repeat split; reflexivity. Qed.
